@@ -71,7 +71,7 @@ var lfSpecs = []lfGuardSpec{
 	{"internal/binutils", "file", "baseErr", "file", "baseOnce", "once"},
 	{"internal/binutils", "file", "isData", "file", "baseOnce", "once"},
 	{"internal/binutils", "addr2Liner", "rw", "addr2Liner", "mu", "mutex"},
-	{"internal/binutils", "llvmSymbolizer", "rw", "llvmSymbolizer", "Mutex", "mutex"},
+	{"internal/binutils", "llvmSymbolizer", "rw", "llvmSymbolizer", "Mutex|mu", "mutex"},
 	// lazily created nm-based symbolizer of a file opened in fast mode (guard added by
 	// fixes/C20-fileNM-lazy-init.patch; without it this row is an error: "guard not found")
 	{"internal/binutils", "fileNM", "addr2linernm", "fileNM", "mu", "mutex"},
@@ -118,13 +118,27 @@ type lfRegion struct {
 	deferred bool
 	read     bool // RLock … RUnlock of a sync.RWMutex: guards reads only
 	lockPos  token.Pos
+	holes    [][2]token.Pos // `if … { mu.Unlock(); return }` inside an explicit region: not held there
 }
 
 type lfOnceDo struct {
+	guard   *types.Var
+	base    string
+	pos     token.Pos // end of the Do statement; everything after it in the unit is ordered after the init
+	end     token.Pos
+	derived bool // established by calling a helper of this package whose body runs guard.Do (f.ensureBase())
+}
+
+// lfLoose is a use of a sync primitive that has none of the recognised shapes.  It creates no
+// guarded region (nothing is claimed to be protected by it); a Lock among them still counts as an
+// acquisition for the lock-order facts; kind "leak" (a return inside Lock…Unlock with the mutex
+// still held) is rejected by the Lean obligation no_lock_leak.
+type lfLoose struct {
+	unit  *lfUnit
 	guard *types.Var
-	base  string
-	pos   token.Pos // end of the Do statement; everything after it in the unit is ordered after the init
-	end   token.Pos
+	pos   token.Pos
+	kind  string // acquire | release | leak | other
+	text  string
 }
 
 type lfPkg struct {
@@ -138,6 +152,7 @@ type lfPkg struct {
 	byFn   map[*types.Func]*lfUnit
 	byLit  map[*ast.FuncLit]*lfUnit
 	errs   []string
+	loose  []lfLoose
 }
 
 func (p *lfPkg) errorf(pos token.Pos, f string, a ...any) {
@@ -337,6 +352,40 @@ func (p *lfPkg) guardCall(c *ast.CallExpr) (g *types.Var, base string, method st
 	return nil, "", method, false
 }
 
+// findGuard locates the guard of a spec row.  An embedded `sync.Mutex` and a named field
+// `mu sync.Mutex` are the same guard: the listed names ("Mutex|mu") are tried first, then the
+// struct's only field of the right sync type.
+func (p *lfPkg) findGuard(spec lfGuardSpec) *types.Var {
+	okType := func(v *types.Var) bool {
+		if spec.kind == "once" {
+			return lfIsSync(v.Type(), "Once")
+		}
+		return lfIsSync(v.Type(), "Mutex") || lfIsSync(v.Type(), "RWMutex")
+	}
+	for _, name := range strings.Split(spec.guard, "|") {
+		for _, v := range p.lookupVar(spec.gOwn, name) {
+			if okType(v) {
+				return v
+			}
+		}
+	}
+	if spec.gOwn == "" {
+		return nil
+	}
+	var only *types.Var
+	n := 0
+	for _, v := range p.lookupVarAll(spec.gOwn) {
+		if _, isPtr := v.Type().(*types.Pointer); !isPtr && okType(v) {
+			only = v
+			n++
+		}
+	}
+	if n == 1 {
+		return only
+	}
+	return nil
+}
+
 func lfGuardName(p *lfPkg, g *types.Var) string {
 	if g.IsField() {
 		return p.pkg.Name() + "." + lfFieldOwner(p, g) + "." + g.Name()
@@ -379,8 +428,15 @@ func (p *lfPkg) scanGuards() {
 			if !ok || handled[c] {
 				return true
 			}
-			if _, _, m, _ := p.guardCall(c); m != "" {
-				p.errorf(c.Pos(), "unrecognised use of sync primitive: %s", p.src(c))
+			if g, _, m, ok := p.guardCall(c); m != "" && ok {
+				kind := "other"
+				switch m {
+				case "Lock", "RLock", "TryLock", "TryRLock":
+					kind = "acquire"
+				case "Unlock", "RUnlock":
+					kind = "release"
+				}
+				p.loose = append(p.loose, lfLoose{p.unitAt(c), g, c.Pos(), kind, p.src(c)})
 			}
 			return true
 		})
@@ -402,7 +458,7 @@ func (p *lfPkg) scanStmts(u *lfUnit, list []ast.Stmt, end token.Pos, handled map
 				switch {
 				case m == "":
 				case !ok:
-					p.errorf(c.Pos(), "sync primitive is not a package variable or struct field: %s", p.src(c))
+					// a mutex / once that is a local variable guards nothing this extractor tracks
 					handled[c] = true
 				case m == "Lock" || m == "RLock":
 					handled[c] = true
@@ -416,9 +472,8 @@ func (p *lfPkg) scanStmts(u *lfUnit, list []ast.Stmt, end token.Pos, handled map
 						switch s2 := list[j].(type) {
 						case *ast.DeferStmt:
 							if g2, b2, m2, ok2 := p.guardCall(s2.Call); ok2 && m2 == unlock && g2 == g && b2 == base {
-								if j != i+1 {
-									p.errorf(s2.Pos(), "defer %s is not directly after the Lock", p.src(s2.Call))
-								}
+								// (a defer later in the same block still releases at function exit;
+								// everything after the Lock is under the lock)
 								handled[s2.Call] = true
 								r.to, r.deferred, found = end, true, true
 							}
@@ -427,17 +482,41 @@ func (p *lfPkg) scanStmts(u *lfUnit, list []ast.Stmt, end token.Pos, handled map
 								if g2, b2, m2, ok2 := p.guardCall(c2); ok2 && m2 == unlock && g2 == g && b2 == base {
 									handled[c2] = true
 									r.to, found = s2.Pos(), true
-									// an explicit region must not be left early
+									// early exits:  if … { mu.Unlock(); return }  makes a hole (not held from
+									// the inner Unlock to the end of that block); a return / jump that
+									// leaves the region with the mutex held is a leak
 									for _, s3 := range list[i+1 : j] {
 										ast.Inspect(s3, func(n ast.Node) bool {
 											switch v := n.(type) {
 											case *ast.FuncLit:
 												return false
+											case *ast.CallExpr:
+												if g3, b3, m3, ok3 := p.guardCall(v); ok3 && m3 == unlock && g3 == g && b3 == base && !handled[v] {
+													if es3, ok := p.parent[v].(*ast.ExprStmt); ok {
+														hend := es3.End()
+														switch blk := p.parent[es3].(type) {
+														case *ast.BlockStmt:
+															hend = blk.End()
+														case *ast.CaseClause:
+															hend = blk.End()
+														}
+														handled[v] = true
+														r.holes = append(r.holes, [2]token.Pos{es3.Pos(), hend})
+													}
+												}
 											case *ast.ReturnStmt:
-												p.errorf(v.Pos(), "return inside an explicit Lock…Unlock region of %s", lfGuardName(p, g))
+												inHole := false
+												for _, h := range r.holes {
+													if h[0] <= v.Pos() && v.Pos() < h[1] {
+														inHole = true
+													}
+												}
+												if !inHole {
+													p.loose = append(p.loose, lfLoose{u, g, v.Pos(), "leak", "return inside " + m + "…" + unlock + " of " + lfGuardName(p, g)})
+												}
 											case *ast.BranchStmt:
 												if v.Tok == token.GOTO || v.Label != nil {
-													p.errorf(v.Pos(), "jump inside an explicit Lock…Unlock region of %s", lfGuardName(p, g))
+													p.loose = append(p.loose, lfLoose{u, g, v.Pos(), "leak", "jump inside " + m + "…" + unlock + " of " + lfGuardName(p, g)})
 												}
 											}
 											return true
@@ -448,7 +527,8 @@ func (p *lfPkg) scanStmts(u *lfUnit, list []ast.Stmt, end token.Pos, handled map
 						}
 					}
 					if !found {
-						p.errorf(c.Pos(), "%s without a matching %s / defer %s in the same block: %s", m, unlock, unlock, p.src(c))
+						// released elsewhere (another block / function): no region is claimed
+						p.loose = append(p.loose, lfLoose{u, g, c.Pos(), "acquire", p.src(c)})
 					} else {
 						u.regions = append(u.regions, r)
 					}
@@ -756,6 +836,147 @@ func (p *lfPkg) implementations(iface types.Type, method string) []*lfUnit {
 	return out
 }
 
+// deriveOnce: a function of this package whose body runs  x.guard.Do(…)  as a top-level statement,
+// x being its receiver or a parameter, establishes the Once for its callers:  after
+// `f.ensureBase(addr)` (as a statement, in an assignment, or in the init / condition of an if) the
+// rest of the enclosing block is ordered after the initialisation, exactly as after
+// `f.baseOnce.Do(…)` itself.  Iterated, so helpers of helpers work too.
+func (p *lfPkg) deriveOnce() {
+	type est struct {
+		guard *types.Var
+		param int // index into unit.params (0 = receiver)
+	}
+	for round := 0; round < 3; round++ {
+		establishes := map[*lfUnit][]est{}
+		for _, u := range p.units {
+			if u.decl == nil {
+				continue
+			}
+			for _, d := range u.onceDos {
+				if d.end != u.body.End() { // only a Do that dominates the function's exit
+					continue
+				}
+				for i, prm := range u.params {
+					if prm != nil && prm.Name() == d.base {
+						establishes[u] = append(establishes[u], est{d.guard, i})
+					}
+				}
+			}
+		}
+		added := false
+		for _, f := range p.files {
+			ast.Inspect(f, func(n ast.Node) bool {
+				c, ok := n.(*ast.CallExpr)
+				if !ok {
+					return true
+				}
+				fn := p.calleeFunc(c.Fun)
+				if fn == nil {
+					return true
+				}
+				if s := p.selOf(c.Fun); s != nil && types.IsInterface(s.Recv()) {
+					return true
+				}
+				cu := p.byFn[fn]
+				es := establishes[cu]
+				if cu == nil || len(es) == 0 {
+					return true
+				}
+				u := p.unitAt(c)
+				if u == nil {
+					return true
+				}
+				// the call must be evaluated unconditionally by a statement of a block
+				var stmt ast.Stmt
+				var child ast.Node = c
+				for par := p.parent[child]; par != nil; child, par = par, p.parent[par] {
+					switch x := par.(type) {
+					case *ast.ExprStmt:
+						stmt = x
+					case *ast.AssignStmt:
+						stmt = x
+					case *ast.IfStmt:
+						if x.Init == child || x.Cond == child {
+							stmt = x
+						}
+					case *ast.ParenExpr, *ast.UnaryExpr:
+						continue
+					case *ast.BinaryExpr:
+						if x.Op == token.LAND || x.Op == token.LOR {
+							if x.X != child {
+								break // right operand of && / || is conditional
+							}
+						}
+						continue
+					}
+					break
+				}
+				if stmt == nil {
+					return true
+				}
+				// `if err := f.ensureBase(a); err != nil {…}`: the init statement belongs to the if
+				if is, ok := p.parent[stmt].(*ast.IfStmt); ok && is.Init == stmt {
+					stmt = is
+				}
+				if is, ok := p.parent[stmt].(*ast.SwitchStmt); ok && is.Init == stmt {
+					stmt = is
+				}
+				end := token.NoPos
+				switch blk := p.parent[stmt].(type) {
+				case *ast.BlockStmt:
+					end = blk.End()
+				case *ast.CaseClause:
+					end = blk.End()
+				case *ast.CommClause:
+					end = blk.End()
+				}
+				if end == token.NoPos {
+					return true
+				}
+				var recv ast.Expr
+				if sel, ok := ast.Unparen(c.Fun).(*ast.SelectorExpr); ok {
+					if sl := p.info.Selections[sel]; sl != nil && sl.Kind() == types.MethodVal {
+						recv = sel.X
+					}
+				}
+				for _, e := range es {
+					var arg ast.Expr
+					if e.param == 0 {
+						arg = recv
+					} else if e.param-1 < len(c.Args) {
+						arg = c.Args[e.param-1]
+					}
+					if arg == nil {
+						continue
+					}
+					base := p.src(arg)
+					dup := false
+					for _, d := range u.onceDos {
+						if d.guard == e.guard && d.base == base && d.pos == c.End() {
+							dup = true
+						}
+					}
+					if !dup {
+						u.onceDos = append(u.onceDos, &lfOnceDo{guard: e.guard, base: base, pos: c.End(), end: end, derived: true})
+						added = true
+					}
+				}
+				return true
+			})
+		}
+		if !added {
+			break
+		}
+	}
+}
+
+func lfContains(outer ast.Node, inner ast.Node) bool {
+	if outer == nil {
+		return false
+	}
+	return outer.Pos() <= inner.Pos() && inner.End() <= outer.End()
+}
+
 // ---------------------------------------------------------------------------------------------
 // analyses
 
@@ -764,7 +985,15 @@ func (u *lfUnit) heldAt(pos token.Pos, g *types.Var) *lfRegion {
 	var found *lfRegion
 	for _, r := range u.regions {
 		if r.guard == g && r.from <= pos && pos < r.to && (found == nil || !r.read) {
-			found = r
+			inHole := false
+			for _, h := range r.holes {
+				if h[0] <= pos && pos < h[1] {
+					inHole = true
+				}
+			}
+			if !inHole {
+				found = r
+			}
 		}
 	}
 	return found
@@ -869,6 +1098,14 @@ func (fr *lfFresh) exprFresh(u *lfUnit, e ast.Expr, depth int) bool {
 		rhs := u.localDefs()[v]
 		if len(rhs) == 0 {
 			return false
+		}
+		// a local variable of struct (or array) type is storage of its own: `next := *shared`
+		// copies, so next.f and &next denote a fresh object
+		switch v.Type().Underlying().(type) {
+		case *types.Struct, *types.Array:
+			if v.Pos() >= u.body.Pos() && v.Pos() <= u.body.End() {
+				return true
+			}
 		}
 		if d := u.reachingDef(v, x); d != nil {
 			rhs = []ast.Expr{d}
@@ -1289,7 +1526,14 @@ func (p *lfPkg) mayAcquire() map[*lfUnit]map[string]bool {
 			acq[u][lfGuardName(p, r.guard)] = true
 		}
 		for _, d := range u.onceDos {
-			acq[u][lfGuardName(p, d.guard)] = true
+			if !d.derived {
+				acq[u][lfGuardName(p, d.guard)] = true
+			}
+		}
+		for _, l := range p.loose {
+			if l.unit == u && l.kind == "acquire" {
+				acq[u][lfGuardName(p, l.guard)] = true
+			}
 		}
 		for _, c := range u.callers {
 			if c.caller != nil {
@@ -1326,6 +1570,12 @@ func (p *lfPkg) nested(ext map[string]map[string]bool) []lfNested {
 	}
 	for _, u := range p.units {
 		var spans []span
+		for _, l := range p.loose {
+			if l.unit == u && l.kind == "acquire" {
+				// released somewhere else: assume it is held to the end of the function
+				spans = append(spans, span{lfGuardName(p, l.guard), l.pos + 1, u.body.End()})
+			}
+		}
 		for _, r := range u.regions {
 			spans = append(spans, span{lfGuardName(p, r.guard), r.from, r.to})
 		}
@@ -1344,7 +1594,15 @@ func (p *lfPkg) nested(ext map[string]map[string]bool) []lfNested {
 					out = append(out, lfNested{u.name, sp.name, lfGuardName(p, r.guard), p.where(r.lockPos)})
 				}
 			}
+			for _, l := range p.loose {
+				if l.unit == u && l.kind == "acquire" && l.pos >= sp.from && l.pos < sp.to {
+					out = append(out, lfNested{u.name, sp.name, lfGuardName(p, l.guard), p.where(l.pos)})
+				}
+			}
 			for _, d := range u.onceDos {
+				if d.derived {
+					continue
+				}
 				if d.pos > sp.from && d.pos <= sp.to {
 					out = append(out, lfNested{u.name, sp.name, lfGuardName(p, d.guard), p.where(d.pos)})
 				}
@@ -1972,6 +2230,7 @@ func genLockFacts(e *Env) (string, error) {
 	type regionRow struct{ guard, fn, shape, where string }
 	var regions []regionRow
 	var guardRows [][3]string
+	var looseRows [][5]string
 	ext := map[string]map[string]bool{}
 	for _, rel := range lfPackages {
 		p, err := lfLoad(e, fset, imp, rel)
@@ -1980,6 +2239,7 @@ func genLockFacts(e *Env) (string, error) {
 		}
 		p.scanGuards()
 		p.buildCalls()
+		p.deriveOnce()
 		fr := p.freshParams()
 		for _, u := range p.units {
 			for _, r := range u.regions {
@@ -1993,7 +2253,11 @@ func genLockFacts(e *Env) (string, error) {
 				regions = append(regions, regionRow{lfGuardName(p, r.guard), u.name, shape, p.where(r.lockPos)})
 			}
 			for _, d := range u.onceDos {
-				regions = append(regions, regionRow{lfGuardName(p, d.guard), u.name, "once.Do", p.where(d.pos)})
+				shape := "once.Do"
+				if d.derived {
+					shape = "once.Do via helper"
+				}
+				regions = append(regions, regionRow{lfGuardName(p, d.guard), u.name, shape, p.where(d.pos)})
 			}
 		}
 		for _, spec := range lfSpecs {
@@ -2010,23 +2274,15 @@ func genLockFacts(e *Env) (string, error) {
 					vars = append(vars, v)
 				}
 			}
-			gs := p.lookupVar(spec.gOwn, spec.guard)
 			if len(vars) == 0 {
 				errs = append(errs, fmt.Sprintf("%s: guarded variable %s.%s not found", rel, spec.owner, spec.field))
 				continue
 			}
-			if len(gs) != 1 {
-				errs = append(errs, fmt.Sprintf("%s: guard %s.%s not found", rel, spec.gOwn, spec.guard))
-				continue
-			}
-			g := gs[0]
-			want := "Mutex"
-			if spec.kind == "once" {
-				want = "Once"
-			}
-			if !lfIsSync(g.Type(), want) && !(spec.kind == "mutex" && lfIsSync(g.Type(), "RWMutex")) {
-				errs = append(errs, fmt.Sprintf("%s: guard %s.%s is not a sync.%s but %s", rel, spec.gOwn, spec.guard, want, g.Type()))
-				continue
+			g := p.findGuard(spec)
+			if g == nil {
+				// no such guard in the source (any more): every site is reported with barrier
+				// `none` and the Lean obligation all_sites_guarded decides
+				g = types.NewVar(token.NoPos, p.pkg, "<no "+spec.kind+" "+spec.gOwn+"."+spec.guard+">", types.Typ[types.Invalid])
 			}
 			var conf, confR, ob, ao map[*lfUnit]bool
 			if spec.kind == "mutex" {
@@ -2093,6 +2349,13 @@ func genLockFacts(e *Env) (string, error) {
 					}
 				}
 			}
+		}
+		for _, l := range p.loose {
+			fn := "package-level"
+			if l.unit != nil {
+				fn = l.unit.name
+			}
+			looseRows = append(looseRows, [5]string{fn, lfGuardName(p, l.guard), l.kind, l.text, p.where(l.pos)})
 		}
 		nested = append(nested, p.nested(ext)...)
 		for u, gsx := range p.mayAcquire() {
@@ -2223,6 +2486,14 @@ func genLockFacts(e *Env) (string, error) {
 			b.WriteString(",\n")
 		}
 		fmt.Fprintf(&b, "  ⟨%s, %s, %d, %s, .%s, %d, %s, %t, %t⟩", leanStr(g.fn), leanStr(g.file), g.line, leanStr(g.callee), g.join, g.joinLine, lfLeanList(g.sharedWrites), g.touchedBefore, g.slotParam)
+	}
+	b.WriteString("]\n\n")
+	b.WriteString("/-- uses of sync primitives that have none of the recognised shapes: (function, guard, kind, text, place).\nThey create no guarded region; kind \"leak\" = the function returns inside Lock…Unlock with the mutex held -/\ndef looseSync : List (String × String × String × String × String) := [\n")
+	for i, l := range looseRows {
+		if i > 0 {
+			b.WriteString(",\n")
+		}
+		fmt.Fprintf(&b, "  (%s, %s, %s, %s, %s)", leanStr(l[0]), leanStr(l[1]), leanStr(l[2]), leanStr(l[3]), leanStr(l[4]))
 	}
 	b.WriteString("]\n\n")
 	fmt.Fprintf(&b, "/-- flags newTempFile passes to os.OpenFile (%s) and the os constants of this platform -/\n", temp.where)
